@@ -381,7 +381,7 @@ theorem facts_setCoords {s : State} (h : Inv s) (v : Option Nat) :
     (Or.inl (frame_setCoords s v).1.shape) (fun _ _ => rfl)
 
 
-/-! ## the calls that are one step -/
+/-! ## the calls that are one stepCore -/
 
 /-- One message that is not about the identifier list, the table and everything else unchanged
 except what `hl` / `hd` / `hk` allow. -/
@@ -487,8 +487,8 @@ theorem label_cons_eq (s : State) (c : Cid) (l : Label) :
   simp [State.label, List.lookup_cons]
 
 theorem facts_rename {s : State} (h : Inv s) (c : Cid) (l : Label) (hc : c ∈ cids s.comps) :
-    Facts s (step s (.rename c l)).state (.rename c l) (step s (.rename c l)).msgs := by
-  simp only [step]
+    Facts s (stepCore s (.rename c l)).state (.rename c l) (stepCore s (.rename c l)).msgs := by
+  simp only [stepCore]
   split
   · exact facts_silent h.nodup rfl rfl (fun _ _ => rfl) rfl (Or.inl rfl) (Or.inl rfl) (by simp [orderOk])
   · rename_i hne
@@ -534,8 +534,8 @@ theorem facts_setLabel {s : State} (h : Inv s) (l : Label) :
   · exact facts_silent h.nodup rfl rfl (fun _ _ => rfl) rfl (Or.inl rfl) (Or.inl rfl) (by simp [orderOk])
 
 theorem facts_setLinked {s : State} (h : Inv s) (cs : List Cid) :
-    Facts s (step s (.setLinked cs)).state (.setLinked cs) (step s (.setLinked cs)).msgs := by
-  simp only [step]
+    Facts s (stepCore s (.setLinked cs)).state (.setLinked cs) (stepCore s (.setLinked cs)).msgs := by
+  simp only [stepCore]
   split
   · exact facts_silent h.nodup rfl rfl (fun _ _ => rfl) rfl (Or.inl rfl) (Or.inl rfl) (by simp [orderOk])
   · simp only [ok]
@@ -765,9 +765,9 @@ theorem facts_updateId {s : State} (h : Inv s) (old new : Cid) (hnew : new ∉ c
 
 /-- attach / detach / register / nop. -/
 theorem facts_hubops {s : State} (h : Inv s) (op : Op) (hop : op = .attach ∨ op = .detach ∨ op = .register ∨ op = .nop) :
-    Facts s (step s op).state op (step s op).msgs := by
+    Facts s (stepCore s op).state op (stepCore s op).msgs := by
   rcases hop with rfl | rfl | rfl | rfl
-  · simp only [step]
+  · simp only [stepCore]
     split
     · exact facts_silent h.nodup rfl rfl (fun _ _ => rfl) rfl (Or.inl rfl) (Or.inl rfl) (by simp [orderOk])
     · exact facts_silent h.nodup rfl rfl (fun _ _ => rfl) rfl (Or.inr rfl) (Or.inr rfl) (by simp [orderOk])
@@ -1113,16 +1113,16 @@ theorem obs_fresh (probe : List Label) {s : State} (h : Inv s) (l : Label) :
     exact hlab c hlt
 
 theorem step_err (probe : List Label) {s : State} {op : Op} (h : Inv s) (hns : classify s op = .ok) {e : Err}
-    (he : (step s op).err = some e) :
-    obs probe (step s op).state = obs probe s ∧ (step s op).msgs = [] := by
+    (he : (stepCore s op).err = some e) :
+    obs probe (stepCore s op).state = obs probe s ∧ (stepCore s op).msgs = [] := by
   cases op with
   | addArray l shape val =>
-    simp only [step] at he ⊢
+    simp only [stepCore] at he ⊢
     split at he
     · rename_i hc; rw [if_pos hc]; exact ⟨rfl, rfl⟩
     · cases he
   | addArrayAt c shape val =>
-    simp only [step] at he ⊢
+    simp only [stepCore] at he ⊢
     split at he
     · rename_i hc; rw [if_pos hc]; exact ⟨rfl, rfl⟩
     · rename_i hc
@@ -1131,7 +1131,7 @@ theorem step_err (probe : List Label) {s : State} {op : Op} (h : Inv s) (hns : c
       · rename_i hc2; rw [if_pos hc2]; exact ⟨rfl, rfl⟩
       · cases he
   | addDerived v l deps =>
-    simp only [step, addDerivedImpl] at he ⊢
+    simp only [stepCore, addDerivedImpl] at he ⊢
     split at he
     · rename_i hv
       rw [if_pos hv]
@@ -1148,12 +1148,12 @@ theorem step_err (probe : List Label) {s : State} {op : Op} (h : Inv s) (hns : c
       · rename_i hem; rw [if_pos hem]; exact ⟨rfl, rfl⟩
       · cases he
   | remove c =>
-    simp only [step] at he ⊢
+    simp only [stepCore] at he ⊢
     split at he
     · rename_i hc; rw [if_pos hc]; exact ⟨rfl, rfl⟩
     · cases he
   | reorder cs =>
-    simp only [step, reorderImpl] at he ⊢
+    simp only [stepCore, reorderImpl] at he ⊢
     split at he
     · rename_i hc; rw [if_pos hc]; exact ⟨rfl, rfl⟩
     · rename_i hc
@@ -1162,12 +1162,12 @@ theorem step_err (probe : List Label) {s : State} {op : Op} (h : Inv s) (hns : c
       · rename_i hc2; rw [if_pos hc2]; exact ⟨rfl, rfl⟩
       · split at he <;> cases he
   | updateId old new =>
-    simp only [step] at he ⊢
+    simp only [stepCore] at he ⊢
     split at he
     · rename_i hc; rw [if_pos hc]; exact ⟨rfl, rfl⟩
     · cases he
   | updateComponents m =>
-    simp only [step, updateComponentsImpl] at he ⊢
+    simp only [stepCore, updateComponentsImpl] at he ⊢
     split at he
     · exact ⟨rfl, rfl⟩
     · cases he
@@ -1179,13 +1179,13 @@ theorem step_err (probe : List Label) {s : State} {op : Op} (h : Inv s) (hns : c
       have : o.comps.isEmpty = false := by simpa using hne
       simp [hs, this] at hargs
     by_cases hd1 : (!decide ((nonCoord s).map (fun c => s.label c.cid)).Nodup) = true
-    · simp only [step, updateFromImpl, hd1, if_true]; exact ⟨rfl, rfl⟩
+    · simp only [stepCore, updateFromImpl, hd1, if_true]; exact ⟨rfl, rfl⟩
     · by_cases hd2 : (!decide (o.comps.map (·.1)).Nodup) = true
-      · simp only [step, updateFromImpl, hd1, hd2, if_true, if_false]
+      · simp only [stepCore, updateFromImpl, hd1, hd2, if_true, if_false]
         exact ⟨rfl, rfl⟩
       · exfalso
         -- no other failure is possible
-        simp only [step, updateFromImpl, hd1, hd2, if_false] at he
+        simp only [stepCore, updateFromImpl, hd1, hd2, if_false] at he
         obtain ⟨hI4, hsh⟩ := inv_ufRefreshed h o hne
         obtain ⟨_, herr5, _⟩ := eff_addNewOnes (old := fun c => c < s.next) o.shape
           (o.comps.filter fun p => !((nonCoord s).map (fun c => s.label c.cid)).contains p.1) hI4 hsh
@@ -1200,30 +1200,30 @@ theorem step_err (probe : List Label) {s : State} {op : Op} (h : Inv s) (hns : c
             exact Nat.lt_of_lt_of_le hc this)
         rw [herr5] at he
         cases he
-  | setCoords v => simp [step, ok] at he
+  | setCoords v => simp [stepCore, ok] at he
   | rename c l =>
-    simp only [step] at he
+    simp only [stepCore] at he
     split at he <;> cases he
-  | setLabel l => simp [step, ok] at he
+  | setLabel l => simp [stepCore, ok] at he
   | attach =>
-    simp only [step] at he
+    simp only [stepCore] at he
     split at he <;> cases he
-  | detach => simp [step, ok] at he
-  | register => simp [step, ok] at he
+  | detach => simp [stepCore, ok] at he
+  | register => simp [stepCore, ok] at he
   | setLinked cs =>
-    simp only [step] at he
+    simp only [stepCore] at he
     split at he <;> cases he
-  | nop => simp [step, ok] at he
+  | nop => simp [stepCore, ok] at he
 
 
 /-! ## every successful call inside the hypothesis -/
 
-theorem step_facts {s : State} {op : Op} (h : Inv s) (hc : classify s op = .ok) (he : (step s op).err = none) :
-    Facts s (step s op).state op (step s op).msgs := by
+theorem step_facts {s : State} {op : Op} (h : Inv s) (hc : classify s op = .ok) (he : (stepCore s op).err = none) :
+    Facts s (stepCore s op).state op (stepCore s op).msgs := by
   obtain ⟨hids, hargs⟩ := classify_ok hc
   cases op with
   | addArray l shape val =>
-    simp only [step] at he ⊢
+    simp only [stepCore] at he ⊢
     split at he
     · cases he
     · rename_i hcan
@@ -1231,7 +1231,7 @@ theorem step_facts {s : State} {op : Op} (h : Inv s) (hc : classify s op = .ok) 
       simp only [ok]
       exact facts_addMain_fresh h _ l shape val (by simpa using hcan) (fun _ _ => rfl)
   | addArrayAt c shape val =>
-    simp only [step] at he ⊢
+    simp only [stepCore] at he ⊢
     split at he
     · cases he
     · rename_i hkind
@@ -1253,7 +1253,7 @@ theorem step_facts {s : State} {op : Op} (h : Inv s) (hc : classify s op = .ok) 
           exact facts_addMain_replace h c hin hmain shape val (canAdd_nonempty h hne (by simpa using hcan))
         · exact facts_addMain_at h _ c (hids c (by simp [Op.ids])) hin shape val (fun _ _ => rfl)
   | addDerived v l deps =>
-    simp only [step, addDerivedImpl] at he ⊢
+    simp only [stepCore, addDerivedImpl] at he ⊢
     split at he
     · rename_i hv
       rw [if_pos hv]
@@ -1276,7 +1276,7 @@ theorem step_facts {s : State} {op : Op} (h : Inv s) (hc : classify s op = .ok) 
         simp only [ok]
         exact facts_addRaw_fresh h _ l (.derived deps) (by simpa using hem) (fun _ _ => rfl)
   | remove c =>
-    simp only [step] at he ⊢
+    simp only [stepCore] at he ⊢
     split at he
     · cases he
     · rename_i hco
@@ -1284,7 +1284,7 @@ theorem step_facts {s : State} {op : Op} (h : Inv s) (hc : classify s op = .ok) 
       exact facts_remove h c
   | reorder cs => exact facts_reorder h cs he
   | updateId old new =>
-    simp only [step] at he ⊢
+    simp only [stepCore] at he ⊢
     split at he
     · cases he
     · rename_i hnew
@@ -1298,7 +1298,7 @@ theorem step_facts {s : State} {op : Op} (h : Inv s) (hc : classify s op = .ok) 
         simp only [hne, Bool.true_and, Bool.not_eq_true] at hnew
         exact facts_updateId h old new (by simpa using hnew) heq
   | updateComponents m =>
-    simp only [step, updateComponentsImpl] at he ⊢
+    simp only [stepCore, updateComponentsImpl] at he ⊢
     split at he
     · cases he
     · rename_i hchk
@@ -1326,8 +1326,8 @@ theorem step_facts {s : State} {op : Op} (h : Inv s) (hc : classify s op = .ok) 
 /-- Each call inside the hypothesis emits exactly the messages that explain what it changed; a
 failed call changes and announces nothing. -/
 theorem messages_exact (probe : List Label) {s : State} {op : Op} (h : Inv s) (hc : classify s op = .ok) :
-    specStep (obs probe s) op (obs probe (step s op).state) (step s op).msgs (step s op).err = true := by
-  cases he : (step s op).err with
+    specStep (obs probe s) op (obs probe (stepCore s op).state) (stepCore s op).msgs (stepCore s op).err = true := by
+  cases he : (stepCore s op).err with
   | none => exact specStep_of_facts probe (step_facts h hc he)
   | some e =>
     obtain ⟨h1, h2⟩ := step_err probe h hc he
